@@ -1543,6 +1543,43 @@ class OrdEval:
         return None
 
 
+def ord_compare(a, b, max_atoms=3):
+    """Are two terms made of unsigned atoms, zero constants, comparisons, selects and value-preserving widenings the same
+    value for EVERY valuation?  Decided over all weak orderings of the atoms and zero (zero least): True / False / None
+    (None: some node is outside this fragment).  Equal rank means equal value, so `x == y ? x : y` is y."""
+    ats = sorted(x for x in (atoms(a) | atoms(b)) if x[0] not in ('undef', 'poison'))
+    if not ats or len(ats) > max_atoms or any(x[0] != 'arg' for x in ats):
+        return None
+    zeros = set()
+    for t in (a, b):
+        walk(t, lambda x: zeros.add(x) if isinstance(x, tuple) and x[0] in ('ci', 'cf') and x[1] in (0, 0.0) and not isinstance(x[1], str) else None)
+
+    def ev(t, oe):
+        if t in oe.rank:
+            return oe.rank[t]
+        if not isinstance(t, tuple):
+            return None
+        if t[0] == 'cast' and t[1] in ('uitofp', 'zext', 'fpext'):
+            return ev(t[3], oe)
+        if t[0] == 'sel':
+            c = oe.cond(t[1])
+            return None if c is None else ev(t[2] if c else t[3], oe)
+        return None
+    for r in weak_orderings(len(ats) + 1):
+        if r[-1] != 0:
+            continue                      # zero is the least unsigned value
+        rank = {x: r[i] for i, x in enumerate(ats)}
+        for z in zeros:
+            rank[z] = 0
+        oe = OrdEval(rank, 'unsigned')
+        ra, rb = ev(a, oe), ev(b, oe)
+        if ra is None or rb is None or oe.bad_pred:
+            return None
+        if ra != rb:
+            return False
+    return True
+
+
 # --------------------------------------------------------------------------
 # D-poly: ring normal form
 # --------------------------------------------------------------------------
